@@ -4,6 +4,7 @@
 set -e
 cd "$(dirname "$0")"
 . ./goenv.sh
+./tools/patch-sqlite.sh
 T=$(mktemp -d /var/tmp/verif-setup-XXXXXX)
 trap 'rm -rf "$T"' EXIT
 (cd harness && $GO test -c -tags verif -o "$T/h.test" . && $GO test -c -race -tags verif -o "$T/h.race.test" .)
